@@ -45,6 +45,9 @@ Static rules (DESIGN.md §C06, engine sa/tabchain.py):
  key-domain-stale  in a loop over atoms, a variable advanced only inside a once-per-key block (`if key not in D:`:
               running array, running total, per-key temporary) is not read elsewhere in the loop body; a per-atom offset
               must be read back from a table indexed by the key
+ array-order  for the SDMX entry points of fast_sdmx.c: a (n,3) coordinate array made C-contiguous in the calling python
+              function is indexed 3*i+c in C, one made Fortran-contiguous c*n+i (argument lists built as literals /
+              appends and splatted are followed)
  atom-order   in grids_indexer.py / gen_cider_grid.py every loop over atom indices that appends blocks is a top-level
               `for ia in range(natm)`; atom indices regrouped by a key and replayed group by group are reported
  mole-rebuild a pyscf Mole constructed from <mol>.atom (keyword or attribute style) also receives <mol>.unit
@@ -1402,6 +1405,133 @@ def rule_setup_invariance(chk):
 
 
 # ----------------------------------------------------------------------------------------------
+# array-order: memory order of coordinate arrays on the python side == the way the C entry point indexes them
+# ----------------------------------------------------------------------------------------------
+ORDER_PY = ["ciderpress/pyscf/sdmx.py", "ciderpress/pyscf/sdmx_slow.py"]
+
+
+def _c_coord_layouts(tu):
+    """{function: {param index: 'interleaved' | 'planar'}} for coordinate pointer parameters (frozen names) from the
+    element indices the function uses: 3*i + c (C-ordered (n,3)) or c*n + i with n an integer parameter (F-ordered)"""
+    out = {}
+    for fname in tu.funcs:
+        ps = tu.params(fname)
+        seeds = {p["id"]: ("G" if p.get("name") in G_NAMES else "A") for p in ps
+                 if tc.ptype(p) == "double *" and p.get("name") in (G_NAMES | A_NAMES)}
+        if not seeds or tu.body(fname) is None:
+            continue
+        try:
+            cu = tc.CoordUse(tu, fname, seeds)
+        except core.AnalysisError:
+            continue
+        kinds = {}
+        for n in cu.nodes:
+            if n.get("kind") != "ArraySubscriptExpr":
+                continue
+            base, idx = cfacts.kids(n)
+            r = cu._root(base)
+            if r is None:
+                continue
+            root = r[0]
+            while root in cu.alias:
+                root = cu.alias[root][0]
+            if root not in seeds:
+                continue
+            total = r[1] + cu._idx(idx)
+            k = None
+            for m, c in total.t.items():
+                if len(m) == 1 and m[0][1] == 1 and m[0][0][0] == "sym":
+                    if c == 3:
+                        k = "interleaved"
+                    elif m[0][0][1] in cu.int_params and k is None and c.denominator == 1 and 0 < c <= 2:
+                        k = "planar"
+            if k:
+                kinds.setdefault(root, set()).add(k)
+        pidx = {p["id"]: i for i, p in enumerate(ps)}
+        lay = {pidx[r_]: next(iter(ks)) for r_, ks in kinds.items() if len(ks) == 1 and r_ in pidx}
+        if lay:
+            out[fname] = lay
+    return out
+
+
+def _py_order(e, fn, depth=0):
+    """'C' / 'F' / None for the array behind a ctypes argument expression"""
+    while isinstance(e, (ast.Call, ast.Attribute)) and not (isinstance(e, ast.Call) and (pf.call_name(e) or "").split(".")[-1] in (
+            "asfortranarray", "ascontiguousarray", "asarray", "array", "require")):
+        e = e.func if isinstance(e, ast.Call) else e.value
+    if isinstance(e, ast.Call):
+        nm = (pf.call_name(e) or "").split(".")[-1]
+        if nm == "asfortranarray":
+            return "F"
+        if nm == "ascontiguousarray":
+            return "C"
+        for k in e.keywords:
+            if k.arg == "order" and isinstance(k.value, ast.Constant):
+                return str(k.value.value).upper() if str(k.value.value).upper() in ("C", "F") else None
+        return None
+    if isinstance(e, ast.Name) and depth < 3:
+        defs = [st.value for st in pf.walk_no_nested(fn) if isinstance(st, ast.Assign) and len(st.targets) == 1
+                and isinstance(st.targets[0], ast.Name) and st.targets[0].id == e.id]
+        orders = {_py_order(d, fn, depth + 1) for d in defs}
+        return orders.pop() if len(orders) == 1 else None
+    return None
+
+
+def rule_array_order(chk, tus):
+    """A (n, 3) coordinate array is handed to C as a bare pointer: np.ascontiguousarray gives x0 y0 z0 x1 ... (the C side
+    must index 3*i + c), np.asfortranarray gives all x, then all y ... (c*n + i).  For every call whose argument order can
+    be read off in the calling function, it must match the indexing of that C entry point."""
+    tu = tus[C_SDMX]
+    lay = _c_coord_layouts(tu)
+    n = 0
+    for rel in ORDER_PY:
+        mod = chk.tree.py(rel)
+        for fn in [f for f in ast.walk(mod) if isinstance(f, ast.FunctionDef)]:
+            # argument lists built as a list literal (+ appends) and splatted
+            lists = {}
+            for st in pf.walk_no_nested(fn):
+                if isinstance(st, ast.Assign) and len(st.targets) == 1 and isinstance(st.targets[0], ast.Name) \
+                        and isinstance(st.value, ast.List):
+                    lists[st.targets[0].id] = list(st.value.elts)
+            for st in sorted((x for x in pf.walk_no_nested(fn) if isinstance(x, ast.Call)), key=lambda x: x.lineno):
+                if isinstance(st.func, ast.Attribute) and st.func.attr == "append" and isinstance(st.func.value, ast.Name) \
+                        and st.func.value.id in lists and len(st.args) == 1:
+                    lists[st.func.value.id].append(st.args[0])
+            fnvars = {}
+            for st in pf.walk_no_nested(fn):
+                if isinstance(st, ast.Assign) and len(st.targets) == 1 and isinstance(st.targets[0], ast.Name) and _lib_func(st.value):
+                    fnvars.setdefault(st.targets[0].id, set()).add(_lib_func(st.value))
+            for call in pf.walk_no_nested(fn):
+                if not isinstance(call, ast.Call):
+                    continue
+                names = {_lib_func(call.func)} if _lib_func(call.func) else fnvars.get(call.func.id, set()) \
+                    if isinstance(call.func, ast.Name) else set()
+                args = list(call.args)
+                if len(args) == 1 and isinstance(args[0], ast.Starred) and isinstance(args[0].value, ast.Name) \
+                        and args[0].value.id in lists:
+                    args = lists[args[0].value.id]
+                for cname in sorted(x for x in names if x in lay):
+                    for pi, want in sorted(lay[cname].items()):
+                        if pi >= len(args):
+                            continue
+                        order = _py_order(args[pi], fn)
+                        if order is None:
+                            continue
+                        n += 1
+                        pname = tu.params(cname)[pi].get("name")
+                        inst = "%s:%s -> %s(%s): python order %s, C indexing %s" % (rel, pf.qualname(fn), cname, pname, order, want)
+                        if (order == "C") == (want == "interleaved"):
+                            chk.ok("array-order", inst)
+                        else:
+                            chk.violation("array-order", F[C_SDMX], cname, "%s indexed %s" % (pname, want), tu.line_of(tu.func(cname)),
+                                          "%s passes `%s` in %s order (%s) but %s reads %s as %s" % (
+                                              pf.qualname(fn), pf.src(args[pi])[:50], order,
+                                              "x0 y0 z0 x1 ..." if order == "C" else "all x, all y, all z", cname, pname,
+                                              "3*i + c" if want == "interleaved" else "c*n + i"), instance=inst)
+    chk.count("coordinate arguments with known memory order", n)
+
+
+# ----------------------------------------------------------------------------------------------
 # mole-rebuild: a Mole made from mol.atom keeps the unit mol.atom is written in
 # ----------------------------------------------------------------------------------------------
 MOLE_GLOBS = ["ciderpress/pyscf/*.py", "ciderpress/dft/lcao_*.py"]
@@ -1817,6 +1947,9 @@ def _analyse_own(chk):
     chk.guard(rule_sph_bounds, tus)
     chk.guard(rule_table_extent, tus)
     chk.guard(rule_unit_vector, tus)
+    chk.guard(rule_array_order, tus)
+    chk.rule("array-order", "memory order of coordinate arrays passed from python matches the C entry point's indexing")
+    chk.floor("array-order", 2, "atom / grid coordinates of the SDMX entry points (several today)")
     chk.guard(rule_xyz_slots, tus)
     chk.guard(rule_translation, tus)
     chk.guard(rule_setup_invariance)
@@ -1935,6 +2068,9 @@ def mutants(tree):
         Mutant("indexer appends per element instead of per atom", GI, fn=_per_element_order, expect="atom-order"),
         Mutant("auxiliary Mole rebuilt without the unit", "ciderpress/pyscf/nldf_convolutions.py", "            unit=mol.unit,\n", "",
                expect="mole-rebuild"),
+        Mutant("atom positions passed C-ordered to the planar-indexing l1 contraction", "ciderpress/pyscf/sdmx.py",
+               'atom_coords = np.asfortranarray(mol.atom_coords(unit="Bohr"))', 'atom_coords = np.ascontiguousarray(mol.atom_coords(unit="Bohr"))',
+               expect="array-order"),
         Mutant("SDMXylm_loop: atom y taken from z", F[C_SDMX], "gridy[g] - atom_coords[3 * ia + 1];", "gridy[g] - atom_coords[3 * ia + 2];",
                expect="translation"),
     ]
